@@ -10,7 +10,7 @@ DSN_CACHE = 0
 
 def trace_cfg(nodes, active):
     q = lambda s: "{" + ", ".join('"%s"' % x for x in s) + "}"
-    return ("SPECIFICATION TSpec\nCONSTANTS\n  Node = %s\n  Active = %s\n  MaxHops = 4\n  MaxPurges = 64\n  MaxLoss = 1000\n"
+    return ("SPECIFICATION TSpec\nCONSTANTS\n  Node = %s\n  Active = %s\n  Class = {\"dsn\", \"auth\", \"user\", \"token\", \"blacklist\", \"schema\"}\n  MaxHops = 4\n  MaxPurges = 64\n  MaxLoss = 1000\n"
             "  MaxFill = 100000\n  Impl = \"local\"\nINVARIANTS MessageBound NeverRelays OnlyHopOne Complete\n"
             "CONSTRAINT Reached\nPOSTCONDITION Accepted\nCHECK_DEADLOCK FALSE\n" % (q(nodes), q(active)))
 
@@ -49,7 +49,7 @@ def drive_cluster(chk, sd, ego, n, rng, purges, deactivate=None, run_id=1):
                 cl.admin(i, "GET", "/dsns/d1/tables/t1/rows")
                 if not cl.present(i):
                     raise vf.NoVerdict("reading rows did not populate the DSN cache on node %d" % (i + 1))
-                cl.log(ev="Fill", n=names[i])
+                cl.log(ev="Fill", n=names[i], c="dsn")
 
         # settle: setup may itself have purged caches; start recording from a quiet, empty state
         for i in range(n):
@@ -65,36 +65,69 @@ def drive_cluster(chk, sd, ego, n, rng, purges, deactivate=None, run_id=1):
         with cl.lock:
             cl.events = []
         cl.recording = True
+
+        def checks():
+            for i in range(n):
+                cl.log(ev="Check", n=names[i], c="dsn", obs="yes" if cl.present(i) else "no")
+
+        def purge(origin, cls="dsn", expect=None, wait=True):
+            peers = [i for i in range(n) if i != origin and names[i] in active]
+            since = len(cl.events)
+            cl.log(ev="OriginPurge", n=names[origin], c=cls)
+            r = cl.admin(origin, "DELETE", "/admin/caches?class=" + cls)
+            if r.status != 200:
+                raise vf.NoVerdict("purge request failed: %r" % r)
+            if wait:
+                wait_quiet(cl, since + 1, len(peers) if expect is None else expect)
+            return peers
+
         for p in range(purges):
             for i in range(n):
                 if rng.random() < 0.8:
                     fill(i)
             origin = rng.randrange(n)
             peers = [i for i in range(n) if i != origin and names[i] in active]
-            if peers and rng.random() < 0.3:
+            kind = p % 4
+            if kind == 1 and len(peers) >= 2:
+                # the FIRST-listed peer is unreachable: the rest must still be told
                 with cl.lock:
-                    cl.drop.add(rng.choice(peers))
-            since = len(cl.events)
-            cl.log(ev="OriginPurge", n=names[origin])
-            r = cl.admin(origin, "DELETE", "/admin/caches?class=dsn")
-            if r.status != 200:
-                raise vf.NoVerdict("purge request failed: %r" % r)
-            wait_quiet(cl, since + 1, len(peers))
+                    cl.drop.add(peers[0])
+                purge(origin)
+            elif kind == 2 and peers:
+                # a second purge of the same class while the first broadcast is still held up on a slow peer
+                slow = peers[-1]
+                with cl.lock:
+                    cl.delay[slow] = 1.5
+                since = len(cl.events)
+                purge(origin, wait=False)
+                time.sleep(0.5)
+                for i in peers[:-1]:
+                    fill(i)
+                purge(origin, wait=False)
+                wait_quiet(cl, since + 1, 2 * len(peers), timeout=40)
+            elif kind == 3:
+                # another cache class (revocation-list cache): receivers must not turn it into purges of their own
+                purge(origin, cls="blacklist")
+            else:
+                if peers and rng.random() < 0.3:
+                    with cl.lock:
+                        cl.drop.add(rng.choice(peers))
+                purge(origin)
             with cl.lock:
                 cl.drop.clear()
+                cl.delay.clear()
             if p % 2 == 1 and cl.captured:
                 i = rng.randrange(n)
                 fill(i)
                 hops = rng.choice([0, 1, 4, 5, 6])
                 st = cl.inject(i, hops)
-                cl.log(ev="Foreign", n=names[i], hops=hops, status=st, present=cl.present(i))
+                cl.log(ev="Foreign", n=names[i], c="dsn", hops=hops, status=st, obs="yes" if cl.present(i) else "no")
                 time.sleep(0.4)
-            for i in range(n):
-                cl.log(ev="Check", n=names[i], present=cl.present(i))
+            checks()
         cl.recording = False
         evs = [dict(e, run=run_id) for e in cl.events]
         for e in evs:
-            for k, d in (("n", ""), ("to", ""), ("hops", 0), ("present", False), ("status", 0)):
+            for k, d in (("n", ""), ("to", ""), ("c", "dsn"), ("hops", 0), ("obs", "unk"), ("status", 0)):
                 e.setdefault(k, d)
         return evs, names, active, len(cl.other)
 
@@ -104,7 +137,7 @@ def run():
     chk = vf.Check(PROP)
     chk.assumptions += [
         "the cluster is real (N ego server processes, shared SQLite system database and profile); membership rows are pointed at driver-owned loopback proxies, which is how flush traffic is observed, dropped and injected",
-        "one cache class (the DSN cache) is traced; the driver is the only client, so cache fills are controlled",
+        "flush traffic of every cache class is traced; cache contents are observed for the DSN cache only (the driver is the only client, so its fills are controlled); purges are issued for the DSN and revocation-list classes",
         "delivery order/loss on the real cluster is what the run produced plus seeded drops; every interleaving, loss and hop count is explored on the model",
         "message loss other than a refused connection (e.g. a lost response after the peer acted) is not injected"]
     rng = random.Random(vf.SEED)
@@ -122,7 +155,7 @@ def run():
             chk.add_tlc(rn, "negative control (relaying receiver) violates " + inv, count_states=False)
         ov = vf.make_overlay(sd)
         ego = vf.build_ego(sd, ov)
-        plans = [(3, 4, None)] if not thorough else [(3, 6, None), (4, 6, 3), (5, 6, None)]
+        plans = [(3, 4, None)] if not thorough else [(3, 8, None), (4, 8, 3), (5, 8, None)]
         total_ev, runs = 0, 0
         for (n, purges, deact) in plans:
             evs, names, active, nother = drive_cluster(chk, sd, ego, n, rng, purges, deact, run_id=1)
@@ -152,7 +185,7 @@ def run():
             if runs == 1:
                 i = next(k for k, e in enumerate(evs) if e["ev"] == "Deliver")
                 d = evs[i]
-                forged = evs[:i + 1] + [dict(d, ev="Send", n=d["n"], to=d["to"], hops=2, present=False)] + evs[i + 1:]
+                forged = evs[:i + 1] + [dict(d, ev="Send", n=d["n"], to=d["to"], hops=2, obs="unk")] + evs[i + 1:]
                 dropped = evs[:i] + evs[i + 1:]
                 for nm, c in (("forged relay by a receiver", forged), ("dropped Deliver event", dropped)):
                     pth = vf.write_ndjson(os.path.join(sd, "corrupt.ndjson"), c)
@@ -162,7 +195,7 @@ def run():
                 chk.cov["binding_selftest"] = "forged relay Send and dropped Deliver both rejected"
         chk.cov["traces_validated_against_impl"] = runs
         chk.cov["evaluations"] = total_ev
-        chk.cov["distinct_nontrivial"] = len({(e["ev"], e["n"], e["to"], e["hops"], e["present"]) for e in evs})
+        chk.cov["distinct_nontrivial"] = len({(e["ev"], e["n"], e["to"], e["c"], e["hops"], e["obs"]) for e in evs})
         chk.cov["rule"] = ("events = purges issued, flush requests seen/forwarded/dropped/injected by the proxies, and quiescent cache-state checks "
                            "on a real multi-process cluster; distinct_nontrivial = distinct (event, node, peer, hops, cache state) tuples in the last run")
     return chk.finish()
